@@ -121,12 +121,21 @@ SplitM(s, a) ==
 \* |limit| >= 2^30 would need modular arithmetic the clamped integer has lost
 SplitLimitSupported(v) == IsUndef(v) \/ (ConvSupported(v) /\ LET w == ToNumberW(v) IN WIsNaN(w) \/ WIsInf(w) \/ (WTruncClamp(w) < Lim /\ WTruncClamp(w) > 0 - Lim))
 
-Methods == {"charAt", "charCodeAt", "indexOf", "lastIndexOf", "includes", "startsWith", "endsWith",
+\* String(value): ToString of the argument ("" when absent); String.fromCharCode(...): ToUint16 of each argument
+StringFn(a) == RVal(VStr(IF Len(a) = 0 THEN <<>> ELSE ToStrU(a[1])))
+ToUint16(v) == LET w == ToNumberW(v) IN
+               IF WIsNaN(w) \/ WIsInf(w) THEN 0
+               ELSE LET t == WTruncClamp(w) IN IF t >= 0 THEN t % 65536 ELSE (65536 - ((0 - t) % 65536)) % 65536
+FromCharCode(a) == RVal(VStr([i \in 1..Len(a) |-> ToUint16(a[i])]))
+Uint16Supported(v) == ConvSupported(v) /\ LET w == ToNumberW(v) IN WIsNaN(w) \/ WIsInf(w) \/ (WTruncClamp(w) < Lim /\ WTruncClamp(w) > 0 - Lim)
+
+Methods == {"fn:String", "fn:String.fromCharCode", "charAt", "charCodeAt", "indexOf", "lastIndexOf", "includes", "startsWith", "endsWith",
             "substring", "slice", "repeat", "concat", "trim", "trimStart", "trimEnd",
             "toLowerCase", "toUpperCase", "toString", ".length", "[]", "split"}
 
 Expected(m, s, a) ==
-  CASE m = "charAt" -> CharAt(s, a)         [] m = "charCodeAt" -> CharCodeAt(s, a)
+  CASE m = "fn:String" -> StringFn(a)        [] m = "fn:String.fromCharCode" -> FromCharCode(a)
+    [] m = "charAt" -> CharAt(s, a)         [] m = "charCodeAt" -> CharCodeAt(s, a)
     [] m = "indexOf" -> IndexOf(s, a)       [] m = "lastIndexOf" -> LastIndexOf(s, a)
     [] m = "includes" -> Includes(s, a)     [] m = "startsWith" -> StartsWith(s, a)
     [] m = "endsWith" -> EndsWith(s, a)     [] m = "substring" -> Substring(s, a)
@@ -138,13 +147,14 @@ Expected(m, s, a) ==
     [] m = "[]" -> IndexM(s, a)             [] m = "split" -> SplitM(s, a)
 
 \* which argument positions are index-like (ToIntegerOrInfinity) / text-like (ToString)
-IndexPos(m) == CASE m \in {"charAt", "charCodeAt", "substring", "slice", "repeat"} -> {1, 2}
+IndexPos(m) == CASE m \in {"charAt", "charCodeAt", "substring", "slice", "repeat", "fn:String.fromCharCode"} -> {1, 2}
                  [] m \in {"indexOf", "lastIndexOf", "includes", "startsWith", "endsWith", "split"} -> {2}
                  [] OTHER -> {}
-TextPos(m) == CASE m \in {"indexOf", "lastIndexOf", "includes", "startsWith", "endsWith", "split"} -> {1}
+TextPos(m) == CASE m = "fn:String" -> {1}
+                [] m \in {"indexOf", "lastIndexOf", "includes", "startsWith", "endsWith", "split"} -> {1}
                 [] m = "concat" -> {1, 2}
                 [] OTHER -> {}
-Arity(m) == CASE m \in {"charAt", "charCodeAt", "repeat", "[]"} -> 1
+Arity(m) == CASE m \in {"charAt", "charCodeAt", "repeat", "[]", "fn:String"} -> 1
               [] m \in {"trim", "trimStart", "trimEnd", "toLowerCase", "toUpperCase", "toString", ".length"} -> 0
               [] OTHER -> 2
 
@@ -152,6 +162,8 @@ Arity(m) == CASE m \in {"charAt", "charCodeAt", "repeat", "[]"} -> 1
 Supported(m, s, a) ==
   /\ Len(a) <= Arity(m)
   /\ \A i \in 1..Len(a) : (i \in IndexPos(m) => ConvSupported(a[i])) /\ (i \in TextPos(m) => ToStrSupported(a[i]))
+  /\ (m = "fn:String.fromCharCode" => \A i \in 1..Len(a) : Uint16Supported(a[i]))
+  /\ (m \in {"fn:String", "fn:String.fromCharCode"} => s = <<>>)          \* plain functions: no receiver
   /\ (m = "repeat" => Len(a) = 1 /\ (s = <<>> \/ ToIntClamp(a[1]) <= 6 \/ IsPosInfArg(a[1])))
   /\ (m = "split" /\ Len(a) >= 2 => SplitLimitSupported(a[2]))
   /\ (m = "[]" => Len(a) = 1 /\ a[1].k = "num" /\ (WIsSmallInt(a[1].w) \/ WIsNaN(a[1].w) \/ WIsInf(a[1].w)) /\ a[1].w # WNegZero)
